@@ -72,11 +72,15 @@ impl Content {
     }
 }
 
-fn ph(h: u64) -> PaymentHash {
-    let mut b = [0u8; 32];
+fn preimage(h: u64) -> [u8; 32] {
+    let mut b = [0x5au8; 32];
     b[0] = h as u8;
-    b[31] = 0x5a;
-    PaymentHash(b)
+    b
+}
+/// hash id h stands for sha256(preimage(h)), so that the preimage can be handed to the signer
+fn ph(h: u64) -> PaymentHash {
+    use lightning_signer::bitcoin::hashes::{sha256::Hash as Sha256Hash, Hash};
+    PaymentHash(Sha256Hash::hash(&preimage(h)).to_byte_array())
 }
 
 struct Chan {
@@ -300,6 +304,8 @@ enum Op {
     /// payments look like
     SignCpOff(usize, Content, i64),
     ValidateOff(usize, Content, i64),
+    /// the node hands over the preimage of hash h on channel i (Channel::htlcs_fulfilled)
+    Fulfil(usize, u64),
     Restart,
 }
 
@@ -333,7 +339,14 @@ fn run_case(case: usize, nch: usize, script: Option<Vec<Op>>, rng: &mut Rng, len
                         let base = sys.chans[i].hnxt.clone().unwrap_or(sys.chans[i].hcur.clone());
                         Op::Validate(i, mutate(rng, &base, &invoices, fee_msat / 1000))
                     }
-                    14..=16 => Op::Revoke(i),
+                    14..=15 => Op::Revoke(i),
+                    16 => {
+                        if rng.chance(1, 2) {
+                            Op::Fulfil(i, *rng.pick(&HASHES))
+                        } else {
+                            Op::Revoke(i)
+                        }
+                    }
                     17 => {
                         // replayed / early requests with other HTLC sets (they must change nothing)
                         let off = *rng.pick(&[-2i64, -2, -3, 2]);
@@ -409,6 +422,15 @@ fn run_case(case: usize, nch: usize, script: Option<Vec<Op>>, rng: &mut Rng, len
                 Op::Revoke(i) => {
                     let r = sys.revoke(*i);
                     (format!("PRevoke {}", i), json!(["revoke", i]), r, true)
+                }
+                Op::Fulfil(i, h) => {
+                    let id = sys.chans[*i].id.clone();
+                    let pre = lightning_signer::lightning::types::payment::PaymentPreimage(preimage(*h));
+                    let r = sys.node.with_channel(&id, |ch| {
+                        ch.htlcs_fulfilled(vec![pre]);
+                        Ok(())
+                    });
+                    (format!("PFulfil {}", h), json!(["fulfil", i, h]), r.is_ok(), false)
                 }
                 Op::Restart => {
                     sys.restart();
